@@ -279,14 +279,16 @@ theorem inherited_aux (base : String) (acc : InjAcc) (fs : List SFunc) :
       ∃ f ∈ fs, f.vis = .pub ∧ g.doc = f.doc ∧ g.vis = f.vis ∧ g.args = f.args ∧ g.ret = f.ret ∧ g.cc = f.cc
         ∧ g.body = .field base f.name := by
   intro g hg
-  have : addFunctions base acc fs = (fs.filter SFunc.isPublic).foldl (injStep base) acc := rfl
+  have : addFunctions base acc fs = (fs.filter fun f => f.isPublic && !f.isInternal).foldl (injStep base) acc := rfl
   rw [this] at hg
   rcases injFold base _ acc g hg with h | ⟨f, hf, hh⟩
   · exact .inl h
   · rw [List.mem_filter] at hf
     refine .inr ⟨f, hf.1, ?_, hh⟩
     have := hf.2
-    simpa [SFunc.isPublic] using this
+    have h2 : f.isPublic = true := by
+      cases hp : f.isPublic <;> simp [hp] at this ⊢
+    simpa [SFunc.isPublic] using h2
 
 /-! ## padding -/
 
